@@ -424,7 +424,16 @@ struct Engine {
     slots_of<per_class> s2;
 
     // order: a permutation seed applied to the records of s1 / s2
-    void register_classes(int style, int left_out, const std::vector<int>& order) {
+    // per-class registration of classes that were held back (C09 histories)
+    void register_late(const std::vector<int>& late) {
+        for (int i : late) {
+            s2.construct(i);
+        }
+    }
+
+    void register_classes(
+        int style, int left_out, const std::vector<int>& order,
+        const std::vector<int>& late = {}) {
         if (style == 0) {
             s0.construct();
         } else if (style == 1) {
@@ -435,7 +444,8 @@ struct Engine {
             }
         } else {
             for (int i : order) {
-                if (i < NCLS && i != left_out) {
+                if (i < NCLS && i != left_out &&
+                    std::find(late.begin(), late.end(), i) == late.end()) {
                     s2.construct(i);
                 }
             }
